@@ -24,8 +24,7 @@ def work_view(ctx):
     about them anchor on the call sites."""
     def keep(cb):
         r = cb.local_ty(0)
-        return ctx.domain_api(cb) or r.startswith("std::result::Result<std::cmp::Ordering") \
-            or re.match(r"std::option::Option<\(&'?\w* ?str, std::ops::RangeInclusive<usize>\)>", r) is not None
+        return ctx.domain_api(cb) or r.startswith("std::result::Result<std::cmp::Ordering") or key_shape(ctx, cb) is not None
     return ctx.validate_body(NAME, inline=True, skip=keep, tag="c06", sugar=True)
 
 
@@ -39,11 +38,39 @@ def comparator_fn(ctx, vb):
     return None, None, None
 
 
+def key_shape(ctx, cb):
+    """How a key extractor hands out (key text, column range): `Option<(&str, RangeInclusive<usize>)>` ->
+    ("tuple", None, "0"); `Option<S>` with S a struct of the crate that has exactly one `&str` field ->
+    ("struct", S's path, that field's name). None if the function is not a key extractor."""
+    r = cb.local_ty(0)
+    if re.match(r"std::option::Option<\(&'?\w* ?str, std::ops::RangeInclusive<usize>\)>", r):
+        return ("tuple", None, "0")
+    m = re.match(r"std::option::Option<(blockwatch::[\w:]+)(<.*>)?>$", r)
+    if m:
+        a = ctx.facts.adts.get(m.group(1))
+        if a is not None and a.get("kind") == "struct":
+            fs = a["variants"][0]["fields"]
+            texts = [f["name"] for f in fs if re.match(r"&'?\w* ?str$", f["ty"])]
+            if len(texts) == 1 and any("RangeInclusive<usize>" in f["ty"] or f["ty"] == "usize" for f in fs):
+                return ("struct", m.group(1), texts[0])
+    return None
+
+
+def key_value(ctx, cb, text):
+    """the abstract value a key extractor returns for a line with the key `text`"""
+    from engine import casewalk as CW
+    kind, path, fname = key_shape(ctx, cb)
+    if kind == "tuple":
+        return ("tuple", (text, CW.TOP))
+    a = ctx.facts.adts[path]
+    return ("adt", path, a["variants"][0]["name"], 0, tuple((f["name"], text if f["name"] == fname else CW.TOP) for f in a["variants"][0]["fields"]))
+
+
 def key_fns(ctx, vb):
     out = []
     for bi, t in vb.calls():
         cb = ctx.facts.body(t.get("res") or "")
-        if cb is not None and re.match(r"std::option::Option<\(&'?\w* ?str, std::ops::RangeInclusive<usize>\)>", cb.local_ty(0)):
+        if cb is not None and key_shape(ctx, cb) is not None:
             out.append((ctx.inl(cb, skip=ctx.domain_api, tag="domain", sugar=True), bi, t))
     return out
 
@@ -51,7 +78,7 @@ def key_fns(ctx, vb):
 def check_key_fn(ctx, out, cb, rule="C06.key"):
     """Key = trimmed line (no regex parameter) or value-group / whole match (regex parameter)."""
     n = 0
-    labs = ctx.prov.read_local(cb, 0, ("0", "0"))
+    labs = ctx.prov.read_local(cb, 0, ("0", key_shape(ctx, cb)[2]))
     has_regex = any("regex::Regex" in cb.local_ty(i) for i in range(1, cb.argc + 1))
     where = ctx.where(cb)
     linelevel.key_calls_allowed(ctx, out, rule, cb, labs, where, "the sort key", linelevel.KEY_ALLOWED)
@@ -164,25 +191,46 @@ def check_cmp_results(ctx, out, rule, vb=None):
                         if v != "otherwise":
                             arms[v] = tg
     vnames = {v["vi"]: v["name"] for v in ctx.facts.adts.get(enum, {"variants": []})["variants"]} if enum else {}
+    def result_defs(op, at, depth=6):
+        """[(block, labels)]: where the ordering wrapped at block `at` is computed - through copies and, when
+        it is assigned once per arm of the format switch (`let o = match self {..}; Ok(o)`), per assignment"""
+        pl = util.op_place(op)
+        if pl is None or pl["p"] or depth == 0:
+            return [(at, ctx.prov.read_operand(cmpf, op))]
+        ds = [d for d in cmpf.defs().get(pl["l"], []) if d[0] == "call" or not d[3]["lhs"]["p"]]
+        if not ds:
+            return [(at, ctx.prov.read_operand(cmpf, op))]
+        res = []
+        for d in ds:
+            if d[0] == "call":
+                labs = {("call", callee_name(d[3]), ())}
+                for a in d[3]["args"]:
+                    labs |= ctx.prov.read_operand(cmpf, a)
+                res.append((d[1], labs))
+            elif d[3]["rv"]["k"] == "use":
+                res.extend(result_defs(d[3]["rv"]["op"], d[1], depth - 1))
+            else:
+                res.append((d[1], ctx.prov.read_operand(cmpf, op)))
+        return res
     for bi, j, s in cmpf.assigns():
         rv = s["rv"]
         if s["lhs"]["l"] == 0 and rv["k"] == "agg" and rv.get("variant") == "Ok":
-            arm = None
-            for v, tg in arms.items():
-                if ccfg.dominates(tg, bi):
-                    arm = vnames.get(v)
-            labs = ctx.prov.read_operand(cmpf, rv["ops"][0])
-            cmps = sorted({l[1] for l in labs if l[0] == "call" and re.search(r"::(cmp|total_cmp|partial_cmp|then|then_with|reverse|max|min)$|PartialOrd|::(lt|le|gt|ge)$", l[1])})
-            if arm is None:
-                out.viol(rule, "%s|unconditional-result" % rule, ctx.where(cmpf, s["span"]),
-                         "the comparator returns a result (derived from [%s]) on a path that does not depend on the sort format: this ordering is not produced by the format's comparison (and skips e.g. numeric parsing, so non-numeric keys under numeric sort are not rejected)" % util.origins_text(labs, 4))
-                continue
-            want = r"impl std::cmp::Ord for str>::cmp$|impl std::cmp::Ord for \[.*\]>::cmp$" if arm == "Lexicographic" else r"f64>::total_cmp$"
-            if len(cmps) == 1 and re.search(want, cmps[0]):
-                n += 1
-            else:
-                out.viol(rule, "%s|%s|comparison" % (rule, arm), ctx.where(cmpf, s["span"]),
-                         "under the %s format the ordering derives from %s; expected exactly %s" % (arm, cmps or util.origins_text(labs, 4), "str's Ord::cmp (code-point order)" if arm == "Lexicographic" else "f64::total_cmp of the two parsed numbers"))
+            for dbi, labs in result_defs(rv["ops"][0], bi):
+                arm = None
+                for v, tg in arms.items():
+                    if ccfg.dominates(tg, dbi):
+                        arm = vnames.get(v)
+                cmps = sorted({l[1] for l in labs if l[0] == "call" and re.search(r"::(cmp|total_cmp|partial_cmp|then|then_with|reverse|max|min)$|PartialOrd|::(lt|le|gt|ge)$", l[1])})
+                if arm is None:
+                    out.viol(rule, "%s|unconditional-result" % rule, ctx.where(cmpf, s["span"]),
+                             "the comparator returns a result (derived from [%s]) on a path that does not depend on the sort format: this ordering is not produced by the format's comparison (and skips e.g. numeric parsing, so non-numeric keys under numeric sort are not rejected)" % util.origins_text(labs, 4))
+                    continue
+                want = r"impl std::cmp::Ord for str>::cmp$|impl std::cmp::Ord for \[.*\]>::cmp$" if arm == "Lexicographic" else r"f64>::total_cmp$"
+                if len(cmps) == 1 and re.search(want, cmps[0]):
+                    n += 1
+                else:
+                    out.viol(rule, "%s|%s|comparison" % (rule, arm), ctx.where(cmpf, s["span"]),
+                             "under the %s format the ordering derives from %s; expected exactly %s" % (arm, cmps or util.origins_text(labs, 4), "str's Ord::cmp (code-point order)" if arm == "Lexicographic" else "f64::total_cmp of the two parsed numbers"))
     return n
 
 
@@ -360,7 +408,8 @@ def check_pairs(ctx, out, vb, rule="C06.adjacent"):
     answers Equal, and the pairs of symbols that reach the comparator are collected."""
     from engine import casewalk as CW
     loops = [(h, bl) for h, bl, kind in shared.outer_block_loops(ctx, vb) if kind == "blocks"]
-    keysites = {bi for cb, bi, t in key_fns(ctx, vb)}
+    keyfn_at = {bi: cb for cb, bi, t in key_fns(ctx, vb)}
+    keysites = set(keyfn_at)
     cmp_sites = {bi for bi, t in vb.calls() if (ctx.facts.body(t.get("res") or "") is not None) and ctx.facts.body(t.get("res")).local_ty(0).startswith("std::result::Result<std::cmp::Ordering")}
     if len(loops) != 1 or not keysites or not cmp_sites:
         out.viol(rule, "%s|shape" % rule, ctx.where(vb), "per-block loop / key extraction calls / comparator call not found (%d/%d/%d)" % (len(loops), len(keysites), len(cmp_sites)))
@@ -388,7 +437,7 @@ def check_pairs(ctx, out, vb, rule="C06.adjacent"):
                 env[-1] = CW.const(i + 1)
                 if pat[i] == "N":
                     return CW.adt("std::option::Option", "None", 0, [])
-                return CW.adt("std::option::Option", "Some", 1, [("0", ("tuple", (CW.sym("K%d" % (i + 1)), CW.TOP)))])
+                return CW.adt("std::option::Option", "Some", 1, [("0", key_value(ctx, keyfn_at[bb], CW.sym("K%d" % (i + 1))))])
             if bb in cmp_sites:
                 vals = [w.deref_val(env, a) for a in argv]
                 ks = [v for v in vals if v[0] == "sym" and str(v[1]).startswith("K")]
@@ -464,7 +513,7 @@ def check_pairs(ctx, out, vb, rule="C06.adjacent"):
             if i >= 3:
                 return "diverge"
             env[-1] = CW.const(i + 1)
-            return CW.adt("std::option::Option", "Some", 1, [("0", ("tuple", (CW.sym("K%d" % (i + 1)), CW.TOP)))])
+            return CW.adt("std::option::Option", "Some", 1, [("0", key_value(ctx, keyfn_at[bb], CW.sym("K%d" % (i + 1))))])
         if bb in cmp_sites:
             k = env.get(-7, CW.const(0))[1] + 1
             env[-7] = CW.const(k)
@@ -583,7 +632,7 @@ def check_key_table(ctx, out, kfs, rule="C06.keytab"):
                         if r0[0] == "adt" and r0[2] == "None":
                             results.add("skip")
                         elif r0[0] == "adt" and r0[2] == "Some":
-                            key = w.field(w.field(r0, "0"), "0")
+                            key = w.field(w.field(r0, "0"), key_shape(ctx, cb)[2])
                             results.add("key:%s" % _show(key))
                         else:
                             results.add("?")
@@ -678,26 +727,8 @@ def run(ctx, out, tier):
         if set(vnames.values()) != {"Lexicographic", "Numeric"}:
             out.viol("C06.cmp", "C06.cmp|formats", ctx.where(cmpf),
                      "the sort format enum has variants %s; the documented formats are lexicographic (default) and numeric (variant names are the accepted attribute values)" % sorted(vnames.values()))
-        # every Ok(..) written to the return place
-        for bi, j, s in cmpf.assigns():
-            rv = s["rv"]
-            if s["lhs"]["l"] == 0 and rv["k"] == "agg" and rv.get("variant") == "Ok":
-                arm = None
-                for v, tg in arms.items():
-                    if ccfg.dominates(tg, bi):
-                        arm = vnames.get(v)
-                labs = ctx.prov.read_operand(cmpf, rv["ops"][0])
-                cmps = sorted({l[1] for l in labs if l[0] == "call" and re.search(r"::(cmp|total_cmp|partial_cmp|then|then_with|reverse|max|min)$|PartialOrd|::(lt|le|gt|ge)$", l[1])})
-                if arm is None:
-                    out.viol("C06.cmp", "C06.cmp|unconditional-result", ctx.where(cmpf, s["span"]),
-                             "the comparator returns a result (derived from [%s]) on a path that does not depend on the sort format: this ordering is not produced by the format's comparison (and skips e.g. numeric parsing)" % util.origins_text(labs, 4))
-                    continue
-                want = r"impl std::cmp::Ord for str>::cmp$|impl std::cmp::Ord for \[.*\]>::cmp$" if arm == "Lexicographic" else r"f64>::total_cmp$"
-                if len(cmps) == 1 and re.search(want, cmps[0]):
-                    n_cmp += 1
-                else:
-                    out.viol("C06.cmp", "C06.cmp|%s|comparison" % arm, ctx.where(cmpf, s["span"]),
-                             "under the %s format the ordering derives from %s; expected exactly %s" % (arm, cmps or util.origins_text(labs, 4), "str's Ord::cmp (code-point order)" if arm == "Lexicographic" else "f64::total_cmp of the two parsed numbers"))
+        # every ordering returned is produced by the format's own comparison (shared with C13.numeric)
+        n_cmp += check_cmp_results(ctx, out, "C06.cmp", vb)
         # argument order of the comparison calls: (a, b) = (param 2, param 3)
         for bi, t in cmpf.calls():
             if callee_matches(t, r"Ord for str>::cmp$|f64>::total_cmp$"):
